@@ -348,12 +348,12 @@ def recalculate_plot_1():
     this_simulation["stored_food"] = "baseline"
 
     if RUN_FIGURE_1_LEAVING_TYPICAL_BUFFERS:
-        this_simulation["end_simulation_stocks_ratio"] = (
+        this_simulation["ratio_stocks_untouched"] = (
             "baseline_no_stored_between_years"
         )
         suffix_storage = ""
     else:
-        this_simulation["end_simulation_stocks_ratio"] = "no_stored_between_years"
+        this_simulation["ratio_stocks_untouched"] = "no_stored_between_years"
 
     this_simulation["seasonality"] = "country"
 
@@ -403,14 +403,14 @@ def recalculate_plot_1():
         assert (
             not RUN_FIGURE_1_NO_STORAGE
         ), "ERROR: You can't run typical buffers if there's no storage..."
-        this_simulation["end_simulation_stocks_ratio"] = "baseline"
+        this_simulation["ratio_stocks_untouched"] = "baseline"
         suffix_storage = " (Reduced)"
     else:
-        this_simulation["end_simulation_stocks_ratio"] = "zero"
+        this_simulation["ratio_stocks_untouched"] = "zero"
         suffix_storage = ""
 
     if RUN_FIGURE_1_NO_STORAGE:
-        this_simulation["end_simulation_stocks_ratio"] = "no_stored_between_years"
+        this_simulation["ratio_stocks_untouched"] = "no_stored_between_years"
         include_storage_resilient_foods_tag = ", No Rationing"
         suffix_storage = " Removed"
     else:
@@ -525,7 +525,7 @@ def recalculate_plot_2():
     this_simulation["scenario"] = "no_resilient_foods"
 
     this_simulation["stored_food"] = "baseline"
-    this_simulation["end_simulation_stocks_ratio"] = "zero"  # use all the stocks up
+    this_simulation["ratio_stocks_untouched"] = "zero"  # use all the stocks up
 
     this_simulation["buffer"] = "zero"
     this_simulation["seasonality"] = "country"
@@ -615,7 +615,7 @@ def recalculate_plot_3():
 
     this_simulation["scenario"] = "no_resilient_foods"
 
-    this_simulation["end_simulation_stocks_ratio"] = "no_stored_between_years"
+    this_simulation["ratio_stocks_untouched"] = "no_stored_between_years"
 
     this_simulation["cull"] = "do_eat_culled"
 
@@ -640,7 +640,7 @@ def recalculate_plot_3():
     )
 
     # WORST CASE + SIMPLE_ADAPTATIONS + CULLING + STORAGE #
-    this_simulation["end_simulation_stocks_ratio"] = "zero"
+    this_simulation["ratio_stocks_untouched"] = "zero"
     this_simulation["meat_strategy"] = "feed_only_ruminants"
     this_simulation["shutoff"] = "long_delayed_shutoff"
 
@@ -684,7 +684,7 @@ def recalculate_plot_s1():
 
     this_simulation["scenario"] = "no_resilient_foods"
 
-    this_simulation["end_simulation_stocks_ratio"] = "baseline"
+    this_simulation["ratio_stocks_untouched"] = "baseline"
     this_simulation["seasonality"] = "baseline_globally"
 
     this_simulation["cull"] = "do_eat_culled"
